@@ -746,5 +746,322 @@ Proof.
   intros Hb. cbn [member]. unfold tmem, mem_list.
   assert (H : RBTree.lookup (kc c) x t = find_list (kc c) x (RBTree.inorder t)).
   { apply lookup_spec; [apply sp_kc_SWO|assumption]. }
-  unfold RB.lookup. rewrite H. reflexivity.
+  rewrite H. reflexivity.
 Qed.
+
+(* ---------- the machine's transition function on the three set kinds ---------- *)
+Definition next (c : config) (s : state) (o : op) : state := fst (fst (step c s o)).
+
+Lemma run_snoc c ops o : run c (ops ++ [o]) = next c (run c ops) o.
+Proof. unfold run, run_from, next. rewrite fold_left_app. reflexivity. Qed.
+
+Lemma hs_next c l o : ckind c = HashSet -> next c (StHSet l) o =
+  match o with
+  | Add vs => StHSet (hs_adds vs l)
+  | RemoveVals vs => StHSet (hs_dels vs l)
+  | Clear => StHSet []
+  | FromJSON (DArr vs) => StHSet (hs_adds vs [])
+  | FromJSON DNull => StHSet []
+  | _ => StHSet l
+  end.
+Proof.
+  intros K. assert (Hinit : init c = StHSet []) by (unfold init; rewrite K; reflexivity).
+  unfold next. destruct o; cbn -[hs_adds hs_dels]; rewrite ?K; cbn; try reflexivity.
+  all: try (destruct (each_of c (StHSet l)); reflexivity).
+  - exact Hinit.
+  - destruct d; try reflexivity; unfold load_array, add_values; rewrite K, Hinit; reflexivity.
+Qed.
+
+Lemma ls_next c tbl ord o : ckind c = LinkedHashSet -> next c (StLSet tbl ord) o =
+  match o with
+  | Add vs => let '(t, o') := ls_adds vs (tbl, ord) in StLSet t o'
+  | RemoveVals vs => let '(t, o') := ls_dels vs (tbl, ord) in StLSet t o'
+  | Clear => StLSet [] []
+  | FromJSON (DArr vs) => let '(t, o') := ls_adds vs ([], []) in StLSet t o'
+  | FromJSON DNull => StLSet [] []
+  | _ => StLSet tbl ord
+  end.
+Proof.
+  intros K. assert (Hinit : init c = StLSet [] []) by (unfold init; rewrite K; reflexivity).
+  unfold next. destruct o; cbn -[ls_adds ls_dels each_of]; rewrite ?K; cbn -[ls_adds ls_dels each_of]; try reflexivity.
+  all: try (destruct (each_of c (StLSet tbl ord)); reflexivity).
+  - destruct (ls_dels vs (tbl, ord)) eqn:E; unfold ls_dels in E; rewrite E; reflexivity.
+  - exact Hinit.
+  - destruct d; try reflexivity; unfold load_array, add_values; rewrite K, Hinit; try reflexivity.
+Qed.
+
+Lemma ts_next c t n o : ckind c = TreeSet -> next c (StRB t n) o =
+  match o with
+  | Add vs => match rbs_puts (kc c) (map (fun x => (x, 0)) vs) (t, n) with Some (t', n') => StRB t' n' | None => StCrash end
+  | RemoveVals vs => match rbs_removes (kc c) vs (t, n) with Some (t', n') => StRB t' n' | None => StCrash end
+  | Clear => StRB RB.E 0
+  | FromJSON (DArr vs) => match rbs_puts (kc c) (map (fun x => (x, 0)) vs) (RB.E, 0) with Some (t', n') => StRB t' n' | None => StCrash end
+  | FromJSON DNull => StRB RB.E 0
+  | _ => StRB t n
+  end.
+Proof.
+  intros K. assert (Hinit : init c = StRB RB.E 0) by (unfold init; rewrite K; reflexivity).
+  unfold next. destruct o; cbn -[rbs_puts rbs_removes each_of]; rewrite ?K; cbn -[rbs_puts rbs_removes each_of]; try reflexivity.
+  all: try (destruct (each_of c (StRB t n)); reflexivity).
+  - destruct (rbs_removes (kc c) vs (t, n)) as [[t' n']|]; reflexivity.
+  - exact Hinit.
+  - destruct d; try reflexivity; unfold load_array, add_values; rewrite K, Hinit; try reflexivity.
+Qed.
+
+(* ---------- the invariant of the three set kinds ---------- *)
+Definition set_inv (c : config) (s : state) : Prop :=
+  match ckind c, s with
+  | HashSet, StHSet l => zasc l
+  | LinkedHashSet, StLSet tbl ord => lset_inv tbl ord
+  | TreeSet, StRB t n => tree_inv (kc c) t n
+  | _, _ => False
+  end.
+
+Lemma set_inv_init c : is_set_kind (ckind c) = true -> set_inv c (init c).
+Proof.
+  unfold set_inv, init. destruct (ckind c); try discriminate; intros _.
+  - constructor.
+  - apply sp_tree_inv_E.
+  - apply lset_inv_nil.
+Qed.
+
+Lemma member_init c x : is_set_kind (ckind c) = true -> member c (init c) x = false.
+Proof. unfold init. destruct (ckind c); try discriminate; reflexivity. Qed.
+
+(* one step: the invariant is kept and membership changes as the history scan says *)
+Lemma set_step c s o : set_inv c s ->
+  set_inv c (next c s o) /\
+  forall x, member c (next c s o) x = live_from (set_cmp c) (rev (set_hist1 c o)) (member c s) x.
+Proof.
+  unfold set_inv, set_cmp. destruct (ckind c) eqn:K; try contradiction; destruct s; try contradiction; intros Hinv.
+  - (* HashSet *)
+    rewrite (hs_next c l o K).
+    destruct o as [vs|vs|vs|i vs|i v|i|i j|ci res|vs|v|vs| |v| |k v|k| |d|cs| |p|p|p|p|f|b|b|b| | | | |ci res];
+      try (split; [exact Hinv|intros x; reflexivity]).
+    + destruct (hs_adds_spec vs l Hinv) as [H1 H2]. split; [exact H1|].
+      intros x. cbn [set_hist1 rev app live_from member]. rewrite H2.
+      destruct (eqvb Z.compare x vs); reflexivity.
+    + destruct (hs_dels_spec vs l Hinv) as [H1 H2]. split; [exact H1|].
+      intros x. cbn [set_hist1 rev app live_from member]. rewrite H2.
+      destruct (eqvb Z.compare x vs); reflexivity.
+    + split; [constructor|]. intros x. reflexivity.
+    + destruct d as [| |vs|kvs]; try (split; [exact Hinv|intros x; reflexivity]).
+      * split; [constructor|]. intros x. reflexivity.
+      * destruct (hs_adds_spec vs [] (SSorted_nil _)) as [H1 H2]. split; [exact H1|].
+        intros x. cbn [set_hist1 rev app live_from member]. rewrite H2.
+        destruct (eqvb Z.compare x vs); reflexivity.
+  - (* TreeSet *)
+    rewrite (ts_next c t n o K).
+    destruct o as [vs|vs|vs|i vs|i v|i|i j|ci res|vs|v|vs| |v| |k v|k| |d|cs| |p|p|p|p|f|b|b|b| | | | |ci res];
+      try (split; [exact Hinv|intros x; reflexivity]).
+    + destruct (ts_adds_spec (kc c) vs (sp_kc_SWO c) t n Hinv) as (t' & n' & E & I & M). rewrite E.
+      split; [exact I|]. intros x. cbn [set_hist1 rev app live_from].
+      rewrite !member_tree by (first [apply I|apply Hinv]). rewrite M. destruct (eqvb (kc c) x vs); reflexivity.
+    + destruct (ts_dels_spec (kc c) vs (sp_kc_SWO c) t n Hinv) as (t' & n' & E & I & M). rewrite E.
+      split; [exact I|]. intros x. cbn [set_hist1 rev app live_from].
+      rewrite !member_tree by (first [apply I|apply Hinv]). rewrite M. destruct (eqvb (kc c) x vs); reflexivity.
+    + split; [apply sp_tree_inv_E|]. intros x. reflexivity.
+    + destruct d as [| |vs|kvs]; try (split; [exact Hinv|intros x; reflexivity]).
+      * split; [apply sp_tree_inv_E|]. intros x. reflexivity.
+      * destruct (ts_adds_spec (kc c) vs (sp_kc_SWO c) RB.E 0 (sp_tree_inv_E _)) as (t' & n' & E & I & M).
+        rewrite E. split; [exact I|]. intros x. cbn [set_hist1 rev app live_from].
+        rewrite member_tree by apply I. rewrite M. destruct (eqvb (kc c) x vs); reflexivity.
+  - (* LinkedHashSet *)
+    rewrite (ls_next c tbl ord o K).
+    destruct o as [vs|vs|vs|i vs|i v|i|i j|ci res|vs|v|vs| |v| |k v|k| |d|cs| |p|p|p|p|f|b|b|b| | | | |ci res];
+      try (split; [exact Hinv|intros x; reflexivity]).
+    + destruct (ls_adds_spec vs tbl ord Hinv) as (t' & o' & E & I & M & _). rewrite E.
+      split; [exact I|]. intros x. cbn [set_hist1 rev app live_from member]. rewrite M.
+      destruct (eqvb Z.compare x vs); reflexivity.
+    + destruct (ls_dels_spec vs tbl ord Hinv) as (t' & o' & E & I & M & _). rewrite E.
+      split; [exact I|]. intros x. cbn [set_hist1 rev app live_from member]. rewrite M.
+      destruct (eqvb Z.compare x vs); reflexivity.
+    + split; [apply lset_inv_nil|]. intros x. reflexivity.
+    + destruct d as [| |vs|kvs]; try (split; [exact Hinv|intros x; reflexivity]).
+      * split; [apply lset_inv_nil|]. intros x. reflexivity.
+      * destruct (ls_adds_spec vs [] [] lset_inv_nil) as (t' & o' & E & I & M & _). rewrite E.
+        split; [exact I|]. intros x. cbn [set_hist1 rev app live_from member]. rewrite M.
+        destruct (eqvb Z.compare x vs); reflexivity.
+Qed.
+
+Lemma live_from_ext cmp h b1 b2 x : (forall y, b1 y = b2 y) -> live_from cmp h b1 x = live_from cmp h b2 x.
+Proof.
+  intros Hb. induction h as [|o h IH]; [apply Hb|].
+  destruct o as [vs|vs|]; cbn [live_from]; try rewrite IH; reflexivity.
+Qed.
+
+Theorem set_run c ops : is_set_kind (ckind c) = true ->
+  set_inv c (run c ops) /\
+  forall x, member c (run c ops) x = live (set_cmp c) (rev (set_hist c ops)) x.
+Proof.
+  intros K. induction ops as [|o ops IH] using rev_ind.
+  - split; [apply set_inv_init; assumption|]. intros x. apply member_init. assumption.
+  - rewrite run_snoc. destruct IH as [I M]. destruct (set_step c (run c ops) o I) as [I' M'].
+    split; [assumption|]. intros z. rewrite M'.
+    unfold set_hist. rewrite flat_map_app, rev_app_distr. cbn [flat_map]. rewrite app_nil_r.
+    unfold live. rewrite live_from_app. apply live_from_ext. exact M.
+Qed.
+
+Lemma contains_member c s xs : set_inv c s -> contains_of c s xs = obool (forallb (member c s) xs).
+Proof.
+  unfold set_inv. destruct (ckind c) eqn:K; try contradiction; destruct s; try contradiction; intros _;
+    cbn [contains_of member]; rewrite ?K; reflexivity.
+Qed.
+
+(* ---------- what Values() and Size() are, for any state satisfying the invariant ---------- *)
+Lemma sp_InA_eq_Zcompare x l : InA (fun a b => (a ?= b) = Eq) x l <-> In x l.
+Proof.
+  rewrite InA_alt. split.
+  - intros (y & Hy & Hin). apply Z.compare_eq in Hy. subst. assumption.
+  - intros Hin. exists x. split; [apply Z.compare_refl|assumption].
+Qed.
+
+Lemma sp_NoDupA_eq_Zcompare l : NoDup l -> NoDupA (fun a b => (a ?= b) = Eq) l.
+Proof.
+  induction 1 as [|a l Hn Hnd IH]; constructor; [|assumption].
+  rewrite sp_InA_eq_Zcompare. assumption.
+Qed.
+
+Lemma values_spec c s : set_inv c s ->
+  NoDupA (sequiv c) (values_of c s) /\
+  size_of c s = Z.of_nat (length (values_of c s)) /\
+  forall x, InA (sequiv c) x (values_of c s) <-> member c s x = true.
+Proof.
+  unfold set_inv, sequiv, set_cmp. destruct (ckind c) eqn:K; try contradiction; destruct s; try contradiction; intros Hinv;
+    cbn [values_of size_of member]; rewrite ?K.
+  - (* HashSet *)
+    split; [apply sp_NoDupA_eq_Zcompare, sp_zasc_NoDup; assumption|]. split; [reflexivity|].
+    intros x. rewrite sp_InA_eq_Zcompare, sp_smem_In. reflexivity.
+  - (* TreeSet *)
+    destruct Hinv as (Hrb & Hbst & Hn). unfold RB.keys.
+    split; [apply sp_sorted_NoDupA, sp_keys_sorted; exact Hbst|].
+    split; [rewrite map_length, <- count_inorder; exact Hn|].
+    intros x. rewrite (sp_InA_keys (kc c)).
+    assert (H : RBTree.lookup (kc c) x t = find_list (kc c) x (RBTree.inorder t)).
+    { apply lookup_spec; [apply sp_kc_SWO|assumption]. }
+    rewrite H. unfold mem_list. reflexivity.
+  - (* LinkedHashSet *)
+    destruct Hinv as (H1 & H2 & H3).
+    split; [apply sp_NoDupA_eq_Zcompare; assumption|]. split; [reflexivity|].
+    intros x. rewrite sp_InA_eq_Zcompare, sp_smem_In. symmetry. apply H3.
+Qed.
+
+(* ================= the theorems of property C04 ================= *)
+
+Theorem C04_member_proof : forall c ops x, is_set_kind (ckind c) = true ->
+  contains_of c (run c ops) [x] = obool (live (set_cmp c) (rev (set_hist c ops)) x).
+Proof.
+  intros c ops x K. destruct (set_run c ops K) as [I M].
+  rewrite (contains_member c _ [x] I). cbn [forallb]. rewrite andb_true_r, M. reflexivity.
+Qed.
+
+Theorem C04_contains_all_proof : forall c ops xs, is_set_kind (ckind c) = true ->
+  contains_of c (run c ops) xs = obool (forallb (member c (run c ops)) xs) /\
+  contains_of c (run c ops) xs = obool (forallb (live (set_cmp c) (rev (set_hist c ops))) xs) /\
+  contains_of c (run c ops) [] = obool true.
+Proof.
+  intros c ops xs K. destruct (set_run c ops K) as [I M].
+  rewrite !(contains_member c _ _ I). split; [reflexivity|]. split; [|reflexivity].
+  f_equal. induction xs as [|y xs IHxs]; [reflexivity|]. cbn [forallb]. rewrite M, IHxs. reflexivity.
+Qed.
+
+Theorem C04_values_proof : forall c ops, is_set_kind (ckind c) = true ->
+  let s := run c ops in
+  NoDupA (sequiv c) (values_of c s) /\
+  size_of c s = Z.of_nat (length (values_of c s)) /\
+  (forall x, InA (sequiv c) x (values_of c s) <-> member c s x = true) /\
+  (forall x, InA (sequiv c) x (values_of c s) <-> live (set_cmp c) (rev (set_hist c ops)) x = true).
+Proof.
+  intros c ops K s. destruct (set_run c ops K) as [I M].
+  destruct (values_spec c s I) as (H1 & H2 & H3).
+  split; [assumption|]. split; [assumption|]. split; [assumption|].
+  intros x. rewrite H3. unfold s. rewrite M. reflexivity.
+Qed.
+
+Theorem C04_treeset_ascending_proof : forall c ops, ckind c = TreeSet ->
+  StronglySorted (fun a b => kc c a b = Lt) (values_of c (run c ops)).
+Proof.
+  intros c ops K. assert (K' : is_set_kind (ckind c) = true) by (rewrite K; reflexivity).
+  destruct (set_run c ops K') as [I _]. unfold set_inv in I. rewrite K in I.
+  destruct (run c ops); try contradiction. cbn [values_of]. rewrite K.
+  apply sp_keys_sorted. apply I.
+Qed.
+
+Theorem C04_linked_inv_proof : forall c ops, ckind c = LinkedHashSet ->
+  exists tbl ord, run c ops = StLSet tbl ord /\
+    StronglySorted Z.lt tbl /\ NoDup ord /\ Permutation tbl ord.
+Proof.
+  intros c ops K. assert (K' : is_set_kind (ckind c) = true) by (rewrite K; reflexivity).
+  destruct (set_run c ops K') as [I _]. unfold set_inv in I. rewrite K in I.
+  destruct (run c ops); try contradiction. exists tbl, ord.
+  split; [reflexivity|]. split; [apply I|]. split; [apply I|]. apply lset_inv_perm. assumption.
+Qed.
+
+Theorem C04_no_crash_proof : forall c ops, is_set_kind (ckind c) = true -> run c ops <> StCrash.
+Proof.
+  intros c ops K. destruct (set_run c ops K) as [I _]. unfold set_inv in I.
+  intros E. rewrite E in I. destruct (ckind c); contradiction.
+Qed.
+
+(* ---------- the same, with nothing but machine observables and the history scan ---------- *)
+Lemma obool_true_iff b : obool b = obool true <-> b = true.
+Proof. destruct b; cbn; split; intros H; try reflexivity; discriminate. Qed.
+
+Lemma set_cmp_hash c : ckind c = HashSet \/ ckind c = LinkedHashSet -> set_cmp c = Z.compare.
+Proof. unfold set_cmp. intros [K|K]; rewrite K; reflexivity. Qed.
+Lemma set_cmp_tree c : ckind c = TreeSet -> set_cmp c = kc c.
+Proof. unfold set_cmp. intros K; rewrite K; reflexivity. Qed.
+Lemma is_set_kind_hash c : ckind c = HashSet \/ ckind c = LinkedHashSet -> is_set_kind (ckind c) = true.
+Proof. intros [K|K]; rewrite K; reflexivity. Qed.
+Lemma is_set_kind_tree c : ckind c = TreeSet -> is_set_kind (ckind c) = true.
+Proof. intros K; rewrite K; reflexivity. Qed.
+
+Theorem C04_member_hash_proof : forall c ops x, ckind c = HashSet \/ ckind c = LinkedHashSet ->
+  contains_of c (run c ops) [x] = obool (live Z.compare (rev (set_hist c ops)) x).
+Proof.
+  intros c ops x K. rewrite <- (set_cmp_hash c K). apply C04_member_proof. apply is_set_kind_hash. assumption.
+Qed.
+
+Theorem C04_member_tree_proof : forall c ops x, ckind c = TreeSet ->
+  contains_of c (run c ops) [x] = obool (live (kc c) (rev (set_hist c ops)) x).
+Proof.
+  intros c ops x K. rewrite <- (set_cmp_tree c K). apply C04_member_proof. apply is_set_kind_tree. assumption.
+Qed.
+
+(* Contains(xs...) holds exactly when every single x is a member *)
+Theorem C04_contains_each_proof : forall c ops xs, is_set_kind (ckind c) = true ->
+  (contains_of c (run c ops) xs = obool true <->
+   forall x, In x xs -> contains_of c (run c ops) [x] = obool true).
+Proof.
+  intros c ops xs K. destruct (set_run c ops K) as [I _].
+  rewrite (contains_member c _ xs I), obool_true_iff, forallb_forall.
+  split; intros H x Hin.
+  - rewrite (contains_member c _ [x] I), obool_true_iff. cbn [forallb]. rewrite andb_true_r. apply H. assumption.
+  - specialize (H x Hin). rewrite (contains_member c _ [x] I), obool_true_iff in H.
+    cbn [forallb] in H. rewrite andb_true_r in H. exact H.
+Qed.
+
+(* Values() and Size() against Contains: each member exactly once *)
+Theorem C04_values_obs_proof : forall c ops, is_set_kind (ckind c) = true ->
+  let s := run c ops in
+  NoDupA (fun a b => set_cmp c a b = Eq) (values_of c s) /\
+  size_of c s = Z.of_nat (length (values_of c s)) /\
+  (forall x, InA (fun a b => set_cmp c a b = Eq) x (values_of c s) <-> contains_of c s [x] = obool true).
+Proof.
+  intros c ops K s. destruct (C04_values_proof c ops K) as (H1 & H2 & H3 & _).
+  destruct (set_run c ops K) as [I _].
+  split; [exact H1|]. split; [exact H2|]. intros x. fold s in I.
+  rewrite (contains_member c s [x] I), obool_true_iff. cbn [forallb]. rewrite andb_true_r. apply H3.
+Qed.
+
+
+Print Assumptions C04_member_proof.
+Print Assumptions C04_contains_all_proof.
+Print Assumptions C04_values_proof.
+Print Assumptions C04_treeset_ascending_proof.
+Print Assumptions C04_linked_inv_proof.
+Print Assumptions C04_no_crash_proof.
+Print Assumptions C04_member_hash_proof.
+Print Assumptions C04_member_tree_proof.
+Print Assumptions C04_contains_each_proof.
+Print Assumptions C04_values_obs_proof.
